@@ -362,7 +362,8 @@ type scenario struct {
 	Limit   int      `json:"limit"`
 	Classes []string `json:"classes"`
 	// Flaky: objects whose status may regress (others only ever become ready)
-	Flaky []string `json:"flaky"`
+	Flaky     []string `json:"flaky"`
+	Conflicts int      `json:"conflicts"`
 }
 
 func (sc scenario) name() string {
@@ -383,6 +384,7 @@ func system(sc scenario) *world.System {
 			}
 			w.MustCreate(osw.NewOD("d", osw.Template(osw.OnePhase(tmpls[0]...), 1), lim))
 			w.Budget["edit"] = sc.Edits
+			w.Budget["conflict"] = sc.Conflicts
 			return w
 		},
 		Events: func(w *world.World) []world.Event {
@@ -402,6 +404,7 @@ func system(sc scenario) *world.System {
 				evs = append(evs, e)
 			}
 			evs = append(evs, osw.GCEvent(w)...)
+			evs = append(evs, osw.ConflictEvents(w, world.CtrlObjectDeployment, "d")...)
 			if e := w.Budget["edit"]; e > 0 {
 				i := sc.Edits - e + 1
 				evs = append(evs, world.Event{Name: fmt.Sprintf("user:edit-template:%s", strings.Join(tmpls[i], "")), Apply: func(w *world.World) *world.Pass {
@@ -447,7 +450,7 @@ func system(sc scenario) *world.System {
 
 func scenarios(quick bool) []scenario {
 	two := []string{"ready", "notready"}
-	out := []scenario{{Edits: 1, Limit: 0, Classes: two, Flaky: []string{"a"}}, {Edits: 1, Limit: -1, Classes: two, Flaky: []string{"c"}}}
+	out := []scenario{{Edits: 1, Limit: 0, Classes: two, Flaky: []string{"a"}}, {Edits: 1, Limit: -1, Classes: two, Flaky: []string{"c"}}, {Edits: 1, Limit: 0, Classes: []string{"ready"}, Flaky: []string{}, Conflicts: 1}}
 	if !quick {
 		out = append(out, scenario{Edits: 2, Limit: 0, Classes: []string{"ready"}, Flaky: []string{}}, scenario{Edits: 1, Limit: -1, Classes: two}, scenario{Edits: 2, Limit: 0, Classes: two, Flaky: []string{"a"}}, scenario{Edits: 2, Limit: 1, Classes: two, Flaky: []string{"b", "c"}})
 	}
@@ -456,7 +459,7 @@ func scenarios(quick bool) []scenario {
 
 func runSystem(o checks.Opts) *report.Report {
 	rep := report.New("C08", "system")
-	rep.Rule = "explicit-state BFS: ObjectDeployment rolling T1{a,b} -> T2{a,c} -> T1{a,b} with the real ObjectDeployment and ObjectSet controllers in any order, workload status changes, garbage collector; the archival oracle on every deployment pass and 'no delete of an object the newest revision contains' on every request"
+	rep.Rule = "explicit-state BFS: ObjectDeployment rolling T1{a,b} -> T2{a,c} -> T1{a,b} with the real ObjectDeployment and ObjectSet controllers in any order, workload status changes, garbage collector, another actor's write landing before each write of a deployment pass (update conflict); the archival oracle on every deployment pass and 'no delete of an object the newest revision contains' on every request"
 	scs := scenarios(o.Quick())
 	rep.Bounds["systems"] = len(scs)
 	for i, sc := range scs {
